@@ -252,7 +252,37 @@ class ScriptGen:
                 return
         self.record('subst_type', self.rand_tyinst(), [th], near)
 
+    def do_subst_shared_tyvar(self):
+        """A sequent whose hypotheses mention a schematic type variable without any schematic
+        variable of that type, while the proposition has one: the inferred type instantiation
+        must be applied to the whole sequent."""
+        sa = STVar(self.r.choice(['a', 'b']))
+        y, z = Var('y', sa), Var('z', sa)
+        shape = self.r.choice(['all_eq', 'const_fun', 'refl'])
+        if shape == 'all_eq':
+            A = Forall(y, Forall(z, Eq(y, z)))
+        elif shape == 'const_fun':
+            f = Var('f', TFun(sa, BoolType))
+            A = Forall(y, Forall(z, Eq(f(y), f(z))))
+        else:
+            A = Forall(y, Eq(y, y))
+        th = self.record('assume', A, [], False)
+        if th is None:
+            return
+        for nm in ('x', 'w'):
+            if th is not None and th.prop.is_forall():
+                th = self.record('forall_elim', SVar(nm, sa), [th], False)
+        if th is None:
+            return
+        T = self.g.rand_type(fun_ok=False)
+        inst = Inst()
+        for v in th.prop.get_svars():
+            inst[v.name] = self.g.closed(T, self.r.choice([0, 1]))
+        self.record('substitution', inst, [th], False)
+
     def do_substitution(self, near):
+        if not near and self.r.random() < 0.25:
+            return self.do_subst_shared_tyvar()
         th = self.pick(lambda t: any(h.get_svars() for h in list(t.hyps) + [t.prop])) if self.r.random() < 0.8 else self.pick()
         if th is None:
             th = self.record('assume', self.bool_term(2), [], False)
@@ -422,6 +452,20 @@ def corpus_scripts():
         p.add_item(1, 'substitution', args=inst, prevs=[0])
         return p
     res.append(('var_inst_type_change', None, var_inst_type_change))
+
+    def subst_tyinst_hyps():
+        # the hypothesis mentions ?'a but no schematic variable; the type instantiation that
+        # substitution infers from ?x, ?w must reach it too
+        sa = STVar('a')
+        y, z = Var('y', sa), Var('z', sa)
+        A = Forall(y, Forall(z, Eq(y, z)))
+        p = Proof()
+        p.add_item(0, 'assume', args=A)
+        p.add_item(1, 'forall_elim', args=SVar('x', sa), prevs=[0])
+        p.add_item(2, 'forall_elim', args=SVar('w', sa), prevs=[1])
+        p.add_item(3, 'substitution', args=Inst(x=kterm.true, w=kterm.false), prevs=[2])
+        return p
+    res.append(('subst_tyinst_hyps', 'C01:substitution-tyinst-hyps', subst_tyinst_hyps))
     return res
 
 
